@@ -40,6 +40,11 @@ CERT_DEFECTS = {
     "leaf-unknown-critical-ext": {"leaf": {"unknown_ext": True}},
     "leaf-v1": {"leaf": {"version": 0, "ku": None}},
     "issuer-name-mismatch": {"leaf": {"issuer_cn": "somebody else"}},
+    # TLCP only: defects of the server's encryption certificate (second certificate of the list)
+    "enc-bad-signature": {"enc": {"bad_sig": "flip"}},
+    "enc-signed-by-other-key": {"enc": {"signed_by": "leaf"}},
+    "enc-expired": {"enc": {"not_before": -30 * DAY, "not_after": -DAY}},
+    "enc-wrong-key-usage": {"enc": {"ku": ["digitalSignature"]}},
     # the peer sends its own self-signed root as last chain certificate; the verifier trusts a different root with the same name
     "impostor-root-in-chain": "impostor",
 }
@@ -49,6 +54,8 @@ CELLS = []
 for proto in net.PROTOS:
     for who in ("server", "client"):
         for dname in CERT_DEFECTS:
+            if dname.startswith("enc-") and not (proto == "tlcp" and who == "server"):
+                continue
             CELLS.append((proto, who, dname))
         CELLS.append((proto, who, "sign-key-mismatch"))
     CELLS.append((proto, "server", "enc-key-mismatch") if proto == "tlcp" else None)
